@@ -38,7 +38,11 @@ class BisectStub:
         if full:
             # contract of bisect: fn acts elementwise on tensors of the working shape (after the first iteration the
             # midpoints have the broadcast shape of lower, upper and target)
-            probe_full = fn(st.fresh_tensor(full, "probe", torch.float64))
+            pr = st.fresh_tensor(full, "probe", torch.float64)
+            # (an arbitrary point of the bracket: fn is only ever evaluated inside it)
+            for a, lo_, up_ in zip(pr._p.reshape(-1), np.broadcast_to(st.payload(lower), full).reshape(-1), np.broadcast_to(st.payload(upper), full).reshape(-1)):
+                c.assume(tm.and_(tm.le(lo_, a), tm.le(a, up_)))
+            probe_full = fn(pr)
             elementwise = tuple(probe_full.shape) == full
             c.check("%s call %d: fn maps a tensor of the target's shape elementwise" % (self.name, k), elementwise)
             if not elementwise:
@@ -68,6 +72,8 @@ class BisectStub:
         decreasing = c.decide(tm.and_(*[tm.gt(a, b) for a, b in zip(pfl.reshape(-1), pfu.reshape(-1))]))
         r = st.fresh_tensor(shape, "bisect_root", torch.float64)
         u = st.fresh_tensor(shape, "bisect_out", torch.float64)
+        for a, lo_, up_ in zip(r._p.reshape(-1), pl.reshape(-1), pu.reshape(-1)):
+            c.assume(tm.and_(tm.le(lo_, a), tm.le(a, up_)))  # (r is auxiliary: only used when the target is inside the range)
         fr = fn(r)
         pfr = np.broadcast_to(st.payload(fr), shape)
         prec = tm.const(precision)
